@@ -17,8 +17,8 @@ static void msg_poly(int32_t *m, int kind, int j) { memset(m, 0, N * 4); uint64_
     switch (kind) { case 0: break; case 1: m[0] = 1; break; case 2: m[0] = -1; break; case 3: m[j] = 1; break; case 4: m[0] = 1; m[1] = 1; break; case 5: m[N - 1] = -1; break; default: for (int i = 0; i < N; i++) { uint64_t r = splitmix(x) % 16; m[i] = r == 0 ? 1 : r == 1 ? -1 : r == 2 ? 2 : 0; } } }
 static const char *MK[] = {"0", "1", "-1", "X^j", "1+X", "-X^(N-1)", "small-norm"};
 static void tlwe_content(TLweSample *c, int k, int kind, uint64_t seed) { uint64_t x = seed * 77 + kind;
-    for (int i = 0; i <= k; i++) for (int j = 0; j < N; j++) c->a[i].coefsT[j] = kind == 0 ? ((i == k && j == 0) ? 0x20000000 : 0) : kind == 1 ? ((i == k && j == 1) ? 0x20000000 : 0) : kind == 2 ? ((i == k && j == N - 1) ? 0x20000000 : 0) : kind == 3 ? INT32_MAX : kind == 4 ? ((j & 1) ? INT32_MIN : INT32_MAX) : (Torus32)splitmix(x); }
-static const char *CK[] = {"trivial-spike0", "trivial-spike1", "trivial-spikeN-1", "allMAX", "altMINMAX", "seeded"};
+    for (int i = 0; i <= k; i++) for (int j = 0; j < N; j++) c->a[i].coefsT[j] = kind == 0 ? ((i == k && j == 0) ? 0x20000000 : 0) : kind == 1 ? ((i == k && j == 1) ? 0x20000000 : 0) : kind == 2 ? ((i == k && j == N - 1) ? 0x20000000 : 0) : kind == 3 ? INT32_MAX : kind == 4 ? ((j & 1) ? INT32_MIN : INT32_MAX) : kind == 6 ? (i == k ? (Torus32)((int32_t)(splitmix(x) % 4001) - 2000) : 0) : kind == 7 ? (i < k ? (Torus32)((int32_t)(splitmix(x) % 1001) - 500) : (Torus32)splitmix(x)) : (Torus32)splitmix(x); }
+static const char *CK[] = {"trivial-spike0", "trivial-spike1", "trivial-spikeN-1", "allMAX", "altMINMAX", "seeded", "trivial-small-message", "small-mask"}; // the last two: every coefficient of a component far below 1/(2Bg): all leading digits are zero
 
 struct Ctx { int k, l, Bgbit; TLweParams *tp; TGswParams *gp; TGswKey *key; TGswSample *g; TGswSampleFFT *gf; std::vector<std::vector<Torus32>> err; IntPolynomial *dec; TLweSample *c, *r; };
 
@@ -32,7 +32,7 @@ static void extern_cases() {
         auto build = [&]() { if (built) return; built = true; X.tp = new_TLweParams(N, cf.k, 0, 0.25); X.gp = new_TGswParams(cf.l, cf.Bgbit, X.tp); X.key = new_TGswKey(X.gp); uint64_t x = 100 + cf.k * 7 + cf.l; for (int i = 0; i < cf.k; i++) for (int j = 0; j < N; j++) X.key->key[i].coefs[j] = (int)(splitmix(x) & 1);
             X.g = new_TGswSample(X.gp); X.gf = new_TGswSampleFFT(X.gp); X.dec = new_IntPolynomial_array(X.gp->kpl, N); X.c = new_TLweSample(X.tp); X.r = new_TLweSample(X.tp); };
         std::vector<int> js = quick() ? std::vector<int>{1, N / 2, N - 1} : std::vector<int>{}; if (js.empty()) for (int j = 1; j < N; j += (cf.l == 2 && cf.Bgbit == 10 && cf.k == 1 && !noisy) ? 1 : 97) js.push_back(j);
-        for (int mk = 0; mk < 7; mk++) for (int j : (mk == 3 ? js : std::vector<int>{0})) for (int ck = 0; ck < 6; ck++) {
+        for (int mk = 0; mk < 7; mk++) for (int j : (mk == 3 ? js : std::vector<int>{0})) for (int ck = 0; ck < 8; ck++) {
             std::string key = fmt("extern/k=%d/l=%d/Bgbit=%d/rows=%s/m=%s/j=%d/c=%s", cf.k, cf.l, cf.Bgbit, noisy ? "noisy" : "noiseless", MK[mk], j, CK[ck]);
             if (!take(key)) continue; if (deadline()) return;
             build(); current(key);
